@@ -287,6 +287,23 @@ def disk_locations(cases, workdir, harness):
         with open(p, 'wb') as f:
             f.write(c['data'])
         written[p.encode('utf-8')] = c
+    # several LARGE files (>= 64 KiB, similar sizes) in the same scan: more of them than there are workers, so some
+    # worker handles two (what a reused read buffer, or views into it, get wrong)
+    fam = [c for c in cases if c.get('origin') == 'family' and not os.path.isabs(c['path'])]
+    if fam:
+        for k in range(7):
+            parts, size, j = [], 0, k
+            while size < 66000 + 900 * k:
+                d = fam[j % len(fam)]['data']
+                parts.append(d + b'\n')
+                size += len(d) + 1
+                j += 3
+            data = b''.join(parts)
+            p = os.path.join(root, 'big', 'Big%d.java' % k)
+            os.makedirs(os.path.dirname(p), exist_ok=True)
+            with open(p, 'wb') as f:
+                f.write(data)
+            written[p.encode('utf-8')] = dict(id='big%d' % k, path='big/Big%d.java' % k, data=data, origin='mutant')
     out = os.path.join(workdir, 'disk_dump.txt')
     p = subprocess.run([harness, 'init-dump', root, out], capture_output=True, timeout=1800, env=dict(os.environ, HOME=workdir))
     stats, bad = Counter(files=len(written)), []
